@@ -46,6 +46,8 @@ def install_steps(step_globals):
     step = step_globals["step"]
     for pattern, func in harness.step_definitions(plan):
         step(pattern)(func)
+    for stype, pattern, func in harness.typed_step_definitions(plan):
+        step_globals[stype](pattern)(func)
 
 
 def make_disk_hooks():
